@@ -92,7 +92,7 @@ def warmup():
     LatexNodes2Text().latex_to_text('a $b$ %c\n \\label{x}')
 
 
-def render_all(s, fills=(None,), sps=(False, True)):
+def render_all(s, fills=(None,), sps=(False, True), combos=None):
     """parse once (as latex_to_text does), render under every option set"""
     clear_parser_cache()
     outs = {}
@@ -109,6 +109,8 @@ def render_all(s, fills=(None,), sps=(False, True)):
         fail('latex_to_text raised %s' % type(e).__name__)
     for mm in MATH_MODES:
         for kc in (False, True):
+            if combos is not None and (mm, kc) not in combos and not (mm == 'text' and not kc):
+                continue
             for sp in sps:
                 for ft in fills:
                     try:
@@ -124,10 +126,10 @@ def render_all(s, fills=(None,), sps=(False, True)):
     return outs
 
 
-def body_filter_skipkept(s, tname, skip_kept_comment=False, fills=(None,), sps=(False, True)):
+def body_filter_skipkept(s, tname, skip_kept_comment=False, fills=(None,), sps=(False, True), combos=None):
     """variant used for the known finding C12-comment-before-argument: everything but the clause 'the comment appears
     under keep_comments=True' is still asserted"""
-    return body_filter(s, tname, True, fills, sps)
+    return body_filter(s, tname, True, fills, sps, combos)
 
 
 def has_in_order(out, a, b, c):
@@ -140,11 +142,11 @@ def has_in_order(out, a, b, c):
     return out.find(c, j + len(b)) >= 0
 
 
-def body_filter(s, tname, skip_kept_comment=False, fills=(None,), sps=(False, True)):
+def body_filter(s, tname, skip_kept_comment=False, fills=(None,), sps=(False, True), combos=None):
     """skip_kept_comment: do not require the comment to appear under keep_comments=True (known finding C12-comment-
     before-argument); absence without keep_comments and all other clauses are still checked."""
     name, clean, spans, inside_math_comment = TDICT[tname]
-    outs = render_all(s, fills, sps)
+    outs = render_all(s, fills, sps, combos)
     for (mm, kc, sp, ft), out in [(k, v) for k, v in outs.items() if len(k) == 4]:
         for kind, marker, a, b, d0, d1 in spans:
             if kind == 'comment':
@@ -223,7 +225,18 @@ def conditions(tier):
         call = 'body_filter(s, %r)' % name
         if quick:
             # one whitespace policy per template (alternating) in the quick tier: 8 option sets per path instead of 16
-            call = 'body_filter(s, %r, False, (None,), (%r,))' % (name, bool(k % 2))
+            # and only the option sets the template's markers are sensitive to (each conversion costs ~1 s per path):
+            # comment templates: keep_comments off/on under math_mode text (all math modes when the comment is inside a
+            # formula); formula templates: the 4 math modes, keep_comments once; discard templates: two option sets
+            if name.startswith('c_') and not imc:
+                combos = (('text', False), ('text', True), ('remove', True))
+            elif name.startswith('c_'):
+                combos = tuple((mm, kc) for mm in MATH_MODES for kc in (False, True))
+            elif name.startswith('m_') or name == 'mix':
+                combos = tuple((mm, False) for mm in MATH_MODES) + (('verbatim', True),)
+            else:
+                combos = (('text', False), ('verbatim', True))
+            call = 'body_filter(s, %r, False, (None,), (%r,), %r)' % (name, bool(k % 2), combos)
         conds.append(Cond('tpl_' + name, 's: str', tpl_pre(clean), call, timeout=T_, cost=2, twin=False,
                           smoke=[dict(s=clean.replace('?', c)) for c in ('x', ' ', '\n', '.')],
                           descr='template %r (? = any character that is not one of %s); 32 option sets' % (clean, ACTIVE)))
@@ -248,9 +261,10 @@ META = dict(
     bounds=dict(quick='31 templates placing comment, formula and discarded-construct markers at top level, inside arguments, optional '
                       'arguments, between macro and argument, in environment bodies, groups, inside math, after bare macros and at end of '
                       'input without newline, each with 1-3 free holes ranging over every character that is not LaTeX-active; every '
-                      'template rendered under all 4 math modes x keep_comments under one of the two whitespace policies (alternating); fill_text '
-                      'concretely only',
-                thorough='both whitespace policies for every template (16 option sets)'),
+                      'template rendered under the option sets its markers are sensitive to (comment templates: keep_comments off/on; formula '
+                      'templates: the 4 math modes; discarded constructs: 2 option sets; comments inside formulas: all 8) under one of the two '
+                      'whitespace policies (alternating); fill_text concretely only',
+                thorough='all 4 math modes x keep_comments x both whitespace policies for every template (16 option sets)'),
     stubs=['logging disabled', 'step budget'],
     outside=['fill_text on symbolic input (do_fill_text uses re/textwrap, which CrossHair models unfaithfully): run concretely on 5 fillings per template',
              'holes that are LaTeX-active characters (they change which construct the marker belongs to)',
